@@ -30,6 +30,11 @@ def descriptors(rng, tier):
     for mode in ("pure", "sha256", "sha512"):
         for ctx in ctxs:
             ds.append((mode, ctx, rng.choice(msgs)))
+    # messages whose length equals a digest size (32, 48, 64, 28) or OID + digest size: they are messages like any other
+    for n in (32, 64, 48, 28, 43, 75):
+        mm = bytes(rng.randrange(256) for _ in range(n))
+        for mode in ("sha256", "sha512"):
+            ds.append((mode, rng.choice([None, b"", b"c"]), mm))
     # equal concatenation, different split
     blob = bytes(rng.randrange(256) for _ in range(40))
     for k in (0, 1, 7, 39, 40):
